@@ -208,11 +208,15 @@ pub struct CliOpts {
     pub cwd: Option<PathBuf>,
     pub env: Vec<(String, String)>,
     pub stdin_closed: bool,
+    // stdin is an open pipe nobody writes to (closed when the child ends).
+    pub stdin_pipe: bool,
+    // stdout goes to a pipe instead of a file.
+    pub stdout_pipe: bool,
 }
 
 impl Default for CliOpts {
     fn default() -> CliOpts {
-        CliOpts{timeout: Duration::from_secs(5), arg: None, cwd: None, env: vec![], stdin_closed: false}
+        CliOpts{timeout: Duration::from_secs(5), arg: None, cwd: None, env: vec![], stdin_closed: false, stdin_pipe: false, stdout_pipe: false}
     }
 }
 
@@ -239,8 +243,12 @@ pub fn run_cli_at(dir: &Path, opts: &CliOpts) -> Obs {
     for (k, v) in &opts.env {
         c.env(k, v);
     }
-    c.stdin(Stdio::null());
-    c.stdout(out_f).stderr(err_f);
+    c.stdin(if opts.stdin_pipe { Stdio::piped() } else { Stdio::null() });
+    if opts.stdout_pipe {
+        c.stdout(Stdio::piped()).stderr(err_f);
+    } else {
+        c.stdout(out_f).stderr(err_f);
+    }
     if opts.stdin_closed {
         unsafe {
             use std::os::unix::process::CommandExt;
@@ -258,6 +266,12 @@ pub fn run_cli_at(dir: &Path, opts: &CliOpts) -> Obs {
     };
     let pid = child.id();
     watched().lock().unwrap().insert(pid, Watch{deadline: Instant::now() + opts.timeout, killed: false});
+    let mut piped_out: Vec<u8> = vec![];
+    if opts.stdout_pipe {
+        if let Some(mut so) = child.stdout.take() {
+            let _ = so.read_to_end(&mut piped_out);
+        }
+    }
     let st = child.wait().expect("wait");
     let killed = watched().lock().unwrap().remove(&pid).map(|w| w.killed).unwrap_or(false);
     let status =
@@ -268,7 +282,7 @@ pub fn run_cli_at(dir: &Path, opts: &CliOpts) -> Obs {
         } else {
             Status::Signal(st.signal().unwrap_or(0))
         };
-    let out = fs::read(&out_path).unwrap_or_default();
+    let out = if opts.stdout_pipe { piped_out } else { fs::read(&out_path).unwrap_or_default() };
     let err = fs::read(&err_path).unwrap_or_default();
     Obs{out, err, status}
 }
